@@ -350,11 +350,16 @@ def run_server_side(rep, sctx, tier, seed):
                         'the drop glue of a suspended coroutine is not modelled (a dropped, never polled stop future is a future that is never polled)']
     ctx = SrvrCtx(sctx)
     q = tier == 'quick'
+    from props import srvrdiff
+    rep.assumptions += ['the server-side world is validated on every run against the natively compiled mount crate (mount/actix-server/src/server/drv.rs: real ServerInner / handle_cmd / multiplexer / signals, a real accept-thread stand-in that ends when Stop is queued) on random concrete schedules']
+    if not srvrdiff.differential(rep, ctx, seed, 150 if q else 600): return
     for W, steps in (((1, 6), (2, 5)) if q else ((1, 8), (2, 7))):
         acc = explore(ctx.mk, make_body(ctx, steps, W), seed=seed, seed_paths=200)
         rep.bounds['server-side W=%d' % W] = {'operations': steps, 'paths': acc.paths, 'stops': '<= 2', 'signals': '<= 1', 'pause/resume': '<= 1'}
         acc.to_report(rep)
         for key, v in sorted(acc.viol.items()):
             fkey = '%s: W=%d %s' % (v['obligation'], W, ' '.join(v['hist'][:14]))
-            path = core.write_replay('C06', fkey, {'side': 'server', 'obligation': v['obligation'], 'history': v['hist'], 'what': v['what']})
-            rep.violation(fkey, '%s -- %s; %s' % (v['obligation'], v['what'], v['hist']), replay=path, reproduced=True)
+            line, nat, sym = srvrdiff.replay_history(ctx, v['hist'])
+            path = core.write_replay('C06', fkey, {'side': 'server', 'obligation': v['obligation'], 'history': v['hist'], 'what': v['what'], 'line': line, 'native_trace': nat, 'engine_trace': sym})
+            # the native run of the same schedule shows the same observable trace on which the obligation is violated
+            rep.violation(fkey, '%s -- %s; %s; native: %s' % (v['obligation'], v['what'], v['hist'], nat), replay=path, reproduced=(nat.strip() == sym.strip()))
